@@ -210,10 +210,13 @@ class Gen:
             n = rng.randint(0, self.max_list if not deep else 1)
             if need or forced_lists:
                 n = max(n, 1)
+            if extra == "tax1099rs" and forced_lists:
+                n = max(n, 2)
             chosen = []
             for i in range(n):
                 a = forced_lists[0] if (forced_lists and i == 0) else rng.choice(lists)
-                if extra == "tax1099rs" and i == 0 and not a["name"].startswith("tax1099"):
+                if extra == "tax1099rs" and i == (1 if forced_lists else 0) and not any(
+                        x["name"].startswith("tax1099") for x in chosen):
                     a = rng.choice([x for x in lists if x["name"].startswith("tax1099")])
                 if extra == "acctinfo" and a["name"] in [x["name"] for x in chosen]:
                     continue
